@@ -366,10 +366,10 @@ func checkRelaxedTime(r *Report, p *Prog) {
 			break
 		}
 		c, ok := v.(*ssa.Call)
-		if !ok || !calleeIs(c, "(time.Time).Format") {
+		if !ok || !(calleeIs(c, "(time.Time).Format") || calleeIs(c, "(time.Time).AppendFormat") && emptyByteSlice(c.Call.Args[1])) {
 			return false, "not a time.Time.Format result"
 		}
-		layout, _ := constStr(c.Call.Args[1])
+		layout, _ := constStr(c.Call.Args[len(c.Call.Args)-1])
 		chain := timeChain(c.Call.Args[0])
 		detail := fmt.Sprintf("Format(%q) of %s", layout, strings.Join(chain, "."))
 		hasRound, hasUTC, other := false, false, false
@@ -1831,4 +1831,22 @@ func errLeaves(v ssa.Value) (direct, viaLoop bool) {
 	}
 	walk(v, false)
 	return
+}
+
+// emptyByteSlice: nil, or a slice made with constant length 0 (AppendFormat into it yields just the formatted text).
+func emptyByteSlice(v ssa.Value) bool {
+	switch x := v.(type) {
+	case *ssa.Const:
+		return x.IsNil()
+	case *ssa.MakeSlice:
+		k, ok := x.Len.(*ssa.Const)
+		return ok && k.Value != nil && k.Int64() == 0
+	case *ssa.Slice:
+		// make([]byte, 0, K) with constant K: new [K]byte sliced [:0]
+		if al, ok := x.X.(*ssa.Alloc); ok && al.Comment == "makeslice" && x.Low == nil {
+			k, ok := x.High.(*ssa.Const)
+			return ok && k.Value != nil && k.Int64() == 0
+		}
+	}
+	return false
 }
